@@ -92,7 +92,12 @@ AWriteFailed ==
     (\E s \in MCSocks : WriteFailed(s, 2) /\ Same)
 ARead ==
     (\E s \in MCSocks, style \in {"some", "wait"}, cap \in 1..2 :
-          Stream /\ sk[s].conn # 0 /\ cn[sk[s].conn].phase = "estab" /\ StartRead(s, 1, style, cap) /\ Op)
+          Stream /\ sk[s].conn # 0 /\ cn[sk[s].conn].phase = "estab" /\ sk[s].rd = None /\ StartRead(s, 1, style, cap) /\ Op)
+\* a second read while one is outstanding (only the acceptor side, to keep the model small)
+ASupersede ==
+    (\E s \in {"a1"} : Stream /\ sk[s].rd # None /\ ~sk[s].closed /\ sk[s].aborting = 0 /\ StartRead(s, 1, sk[s].rd.style, 1) /\ Op)
+ALate ==
+    (\E s \in {"a1"} : (ReadDataLate(s, 1, Sid(StreamIn(s)), st[StreamIn(s)].deliv) \/ ReadEofLate(s) \/ ReadyLate(s)) /\ Same)
 AReadData ==
     (\E s \in MCSocks : sk[s].rd # None /\ sk[s].rd.style = "some" /\ \E n \in 1..2 :
           ReadData(s, 1, n, Sid(StreamIn(s)), st[StreamIn(s)].deliv) /\ Same)
@@ -107,7 +112,7 @@ ACancel ==
     (\E s \in MCSocks : ~sk[s].closed /\ (sk[s].rd # None \/ sk[s].wr # None) /\ CancelSock(s) /\ Op)
 AAborted ==
     (\E s \in MCSocks : Aborted(s) /\ Same)
-MCNext == AListen \/ ACloseAcc \/ ACancelAcc \/ AAcceptAborted \/ AAccept \/ AConnect \/ ASynArrive \/ ASynAck \/ ASynAckArrive \/ AAcceptDone \/ AConnectOk \/ ATick \/ ARefused \/ ASend \/ AEof \/ ADrop \/ AResend \/ AArrive \/ AAck \/ AWrite \/ AWriteDone \/ AWriteFailed \/ ARead \/ AReadData \/ AReadEof \/ AReady \/ AClose \/ ACancel \/ AAborted
+MCNext == AListen \/ ACloseAcc \/ ACancelAcc \/ AAcceptAborted \/ AAccept \/ AConnect \/ ASynArrive \/ ASynAck \/ ASynAckArrive \/ AAcceptDone \/ AConnectOk \/ ATick \/ ARefused \/ ASend \/ AEof \/ ADrop \/ AResend \/ AArrive \/ AAck \/ AWrite \/ AWriteDone \/ AWriteFailed \/ ARead \/ ASupersede \/ ALate \/ AReadData \/ AReadEof \/ AReady \/ AClose \/ ACancel \/ AAborted
 MCSpec == MCInit /\ [][MCNext]_mvars
 
 \* C05: end of file is read only after every byte the peer put on the wire was delivered
